@@ -2,7 +2,7 @@
 path, the canonical bounded-ring schema (access/accounting pairing).  Partial: the behaviour over
 all push/pop sequences follows from the schema by a textbook argument that is NOT mechanised here."""
 from rl import (loc_endswith, path_cond, trace_summary, where, const_of, fmt_val, fmt_loc, fields_of)
-from common import scan_field_writes, contains
+from common import scan_field_writes, contains, eq_fact, same_pred, cmp_fact
 from lib import CheckerError
 
 ARRAY = 'buffer::ring_buffer::ArrayBuf'
@@ -62,6 +62,15 @@ def final(E, path, f):
     return E.read(type('SV', (), {'store': path.store})(), (('P', 'self'), f))
 
 
+def positive(E, facts, x):
+    """truth of `x > 0` for an unsigned x in any spelling (x > 0, 0 < x, x != 0, !(x == 0), ...): 1 / 0 / None"""
+    r = cmp_fact(E, facts, 'Gt', x, ('const', 0))
+    if r is not None:
+        return r
+    r = eq_fact(E, facts, x, ('const', 0))
+    return None if r is None else 1 - r
+
+
 def run(C, R):
     R.explanation = ('Each function of the three buffers is compared, on every MIR path, with the canonical ring '
                      'schema: R1 the raw accesses ptr.add(i).write / read / drop_in_place use send_idx for the '
@@ -103,7 +112,7 @@ def run(C, R):
                            where(F, ops[0][2]))
                 continue
             nraw += len(ops)
-            guard = const_of(E, path.facts, ('bin', 'Ne', S('size'), LEN)) == 1
+            guard = eq_fact(E, path.facts, S('size'), LEN) == 0
             ok_access = len(ops) == 1 and ops[0][0] == 'write' and ops[0][1] == S('send_idx') \
                 and ops[0][2]['args'][1] == ('param', 'value')
             nx = next_of(E, path, S('send_idx'))
@@ -135,7 +144,7 @@ def run(C, R):
                            where(F, ops[0][2]))
                 continue
             nraw += len(ops)
-            guard = const_of(E, path.facts, ('bin', 'Gt', S('size'), ('const', 0))) == 1
+            guard = positive(E, path.facts, S('size')) == 1
             ok_access = len(ops) == 1 and ops[0][0] == 'read' and ops[0][1] == S('recv_idx') and \
                 path.ret == ops[0][2]['ret']
             nx = next_of(E, path, S('recv_idx'))
@@ -171,7 +180,7 @@ def run(C, R):
                 if kind != 'drop_in_place' or idx != recv:
                     good = False
                     break
-                if const_of(E, path.facts, ('bin', 'Gt', size, ('const', 0))) != 1:
+                if positive(E, path.facts, size) != 1:
                     good = False
                     break
                 nx = next_of(E, path, recv)
@@ -179,7 +188,7 @@ def run(C, R):
                     good = False
                     break
                 recv, size = nx, ('bin', 'Sub', size, ('const', 1))
-            if good and const_of(E, path.facts, ('bin', 'Gt', size, ('const', 0))) in (0, None) and \
+            if good and positive(E, path.facts, size) in (0, None) and \
                     final(E, path, 'recv_idx') == recv and final(E, path, 'size') == size and \
                     final(E, path, 'send_idx') == S('send_idx'):
                 R.ok('C19.R1', '%s|%d element(s) dropped at successive recv_idx under size > 0' % (fn['path'], len(ops)))
@@ -229,7 +238,7 @@ def run(C, R):
             fn = fn_of(ARRAY, nm)
             for path in E.run(fn['path']):
                 eff = [e for e in path.events if e['k'] in ('write', 'qop')]
-                if path.ret == want and not eff:
+                if (path.ret == want or same_pred(path.ret, want)) and not eff:
                     R.ok('C19.R5', '%s = %s' % (fn['path'], fmt_val(want)))
                 else:
                     R.fail('C19.R5', [fn['path'], 'report'], '%s returns %s (expected %s)' % (
@@ -239,7 +248,7 @@ def run(C, R):
             raise CheckerError('anchor=RingBuf::is_empty default method')
         for path in E.run(ie[0]['path']):
             calls = [e for e in path.events if e['k'] == 'call' and e['name'] == 'len']
-            if calls and path.ret == ('bin', 'Eq', calls[0]['ret'], ('const', 0)):
+            if calls and same_pred(path.ret, ('bin', 'Eq', calls[0]['ret'], ('const', 0))):
                 R.ok('C19.R5', 'RingBuf::is_empty = (len() == 0)')
             else:
                 R.fail('C19.R5', [ie[0]['path'], 'report'], 'is_empty is not len() == 0', None)
@@ -293,7 +302,7 @@ def heap_variants(R, E, F, rule, cfg):
         fn = fn_of(adt, 'can_push')
         for path in E.run(fn['path']):
             c = [e for e in path.events if e['k'] == 'call' and e['name'] == 'len']
-            if c and path.ret == ('bin', 'Ne', c[0]['ret'], S(lim)):
+            if c and same_pred(path.ret, ('bin', 'Ne', c[0]['ret'], S(lim))):
                 R.ok(rule, '%s|len() != limit' % fn['path'])
             else:
                 R.fail(rule, [fn['path'], 'can_push'], 'can_push must be len() != stored limit (returns %s)'
